@@ -768,5 +768,9 @@ func (e StdEng) checkThreeFloatComplexTensors(a, b, ret Tensor) (ad, bd, retVal 
 		return nil, nil, nil, errors.Wrap(err, "checkTwoTensors expects retVal to be be a DenseTensor")
 	}
 	ad, bd = blasOperand(ad), blasOperand(bd)
+	if !ad.DataOrder().HasSameOrder(bd.DataOrder()) || !ad.DataOrder().HasSameOrder(retVal.DataOrder()) {
+		// the BLAS calls below describe all three matrices in one data order
+		return nil, nil, nil, errors.Errorf(methodNYI, "linear algebra", "operands and result of different data orders")
+	}
 	return
 }
